@@ -72,8 +72,8 @@ fn main() {
             let tier = args.get(3).cloned().unwrap_or_else(|| "quick".into());
             check::dispatch(&prop, &tier)
         }
-        Some("c19-worker") => check::c19::worker_main(&args[2..]),
-        Some("c19-replay-child") => check::c19::replay_child(args.get(2).map(|s| s.as_str()).unwrap_or("")),
+        Some("sup-worker") => check::supervise::worker_main(&args[2..]),
+        Some("sup-replay-child") => check::supervise::replay_child(args.get(2).map(|s| s.as_str()).unwrap_or("")),
         Some("selftest-determinism") => check::selftest_determinism(args.get(2).and_then(|s| s.parse().ok()).unwrap_or(300)),
         Some("replay") => check::replay_file(args.get(2).map(|s| s.as_str()).unwrap_or("")),
         _ => {
